@@ -4,7 +4,7 @@ tier=${1:-quick}
 cd "$(dirname "$0")/.."
 for i in 01 02 03 04 05 06 07 08 09 10 11 12 13 14 15 16 17 18 19 20; do
   t0=$(date +%s)
-  ./check C$i --tier $tier > /tmp/run_all_C$i.log 2>&1
+  ./check C$i --tier $tier > /tmp/run_all_${tier}_C$i.log 2>&1
   rc=$?
-  echo "C$i exit=$rc $(tail -1 /tmp/run_all_C$i.log) [$(( $(date +%s) - t0 )) s]"
+  echo "C$i exit=$rc $(tail -1 /tmp/run_all_${tier}_C$i.log) [$(( $(date +%s) - t0 )) s]"
 done
